@@ -231,3 +231,10 @@ def _engine_prop(prop_file, files, n_quick=150, n_thorough=2500, extra_drivers=N
 
 PROPS["C07"] = _engine_prop("props/C07.v", [])
 PROPS["C08"] = _engine_prop("props/C08.v", [])
+
+# C01 and C04 are decided at two levels: component drivers (render / nav) and the engine driver
+for _p in ("C01", "C04"):
+    PROPS[_p]["drivers"] = PROPS[_p]["drivers"] + [{"name": "engine", "n_quick": 120, "n_thorough": 2000, "timeout": 1200}]
+    PROPS[_p]["model_files"] = list(dict.fromkeys(PROPS[_p]["model_files"] + ENGINE_MODEL))
+    PROPS[_p]["rule"] = PROPS[_p]["rule"] + " || engine level: " + ENGINE_RULE
+    PROPS[_p]["assumptions"] = PROPS[_p].get("assumptions", []) + ENGINE_ASSUME
